@@ -336,6 +336,14 @@ def r2_queries(repo, rep):
     raise Undecided('geo_index setter vanished')
   g3, rd3, effs3 = function_effects(st)
   fixed = {'df', 'geo_share', 'geo_eligibility', 'assignable', 'geos_in_data'}
+  # any further field that only the constructor stores (a row-number table, a pre-built matrix) is construction-time state too
+  stored_by = {}
+  for m_ in dcls.all_functions():
+    sn_ = m_.params[0] if m_.params else None
+    for e_ in effects.effects_of(m_.node):
+      if e_.kind in ('attr-store', 'delete') and isinstance(e_.target, ast.Attribute) and norm(e_.target.value) == sn_:
+        stored_by.setdefault(e_.target.attr, set()).add(m_.qualname)
+  fixed = fixed | {a_ for a_, who_ in stored_by.items() if who_ == {dcls.methods['__init__'].qualname}} if '__init__' in dcls.methods else fixed
   written = set()
   for e, recv, c in effs3:
     if c == 'self' and e.kind == 'attr-store' and e.value is not None:
@@ -369,7 +377,39 @@ def r3_r4_results(repo, rep):
               and norm(n.ast.value.func).endswith('HeapDict')]
     inst = [(e, recv) for e, recv, c in effs if c == 'self' and e.kind == 'attr-store' and recv == 'self' and e.attr == '_search_results']
     other = [(e, recv) for e, recv, c in effs if c == 'self' and not (e.kind == 'attr-store' and recv == 'self' and e.attr == '_search_results')]
+    # a field that is bound only for the duration of the search: stored inside a `try` whose `finally` removes it again
+    # (vars(self).pop(name, None), del self.name, self.name = None) leaves no state behind
+    scoped = set()
+    for tr in [x for x in walk_no_nested(f.node) if isinstance(x, ast.Try) and x.finalbody]:
+      for fs in tr.finalbody:
+        for sub in ast.walk(fs):
+          if isinstance(sub, ast.Call) and isinstance(sub.func, ast.Attribute) and sub.func.attr == 'pop' and sub.args and isinstance(sub.args[0], ast.Constant) \
+              and norm(sub.func.value) in ('vars(self)', 'self.__dict__'):
+            scoped.add(sub.args[0].value)
+          if isinstance(sub, ast.Delete):
+            scoped |= {t_.attr for t_ in sub.targets if isinstance(t_, ast.Attribute) and norm(t_.value) == 'self'}
+          if isinstance(sub, ast.Assign) and au.is_const(sub.value, None):
+            scoped |= {t_.attr for t_ in sub.targets if isinstance(t_, ast.Attribute) and norm(t_.value) == 'self'}
+          if isinstance(sub, ast.Call) and isinstance(sub.func, ast.Name) and sub.func.id == 'delattr' and len(sub.args) == 2 and norm(sub.args[0]) == 'self' \
+              and isinstance(sub.args[1], ast.Constant):
+            scoped.add(sub.args[1].value)
+    def _in_try_with_reset(st_, attr_):
+      cur_ = getattr(st_, '_parent', None)
+      while cur_ is not None and cur_ is not f.node:
+        if isinstance(cur_, ast.Try) and cur_.finalbody and attr_ in scoped:
+          return True
+        cur_ = getattr(cur_, '_parent', None)
+      # stored immediately before the try (the usual `self.x = v; try: ... finally: reset`)
+      body_ = getattr(getattr(st_, '_parent', None), 'body', None) or []
+      if st_ in body_:
+        i_ = body_.index(st_)
+        return attr_ in scoped and any(isinstance(n_, ast.Try) and n_.finalbody for n_ in body_[i_ + 1:i_ + 3])
+      return False
     for e, recv in other:
+      if e.kind == 'attr-store' and recv == 'self' and e.attr in scoped and (_in_try_with_reset(e.stmt, e.attr) or
+                                                                             _in_try_with_reset(getattr(e.stmt, '_parent', e.stmt), e.attr)):
+        rep.ok('R4/fresh-heap', '%s: field %s is bound only for the duration of the search (removed again in a finally block)' % (name, e.attr), loc=f.loc(e.stmt))
+        continue
       rep.violation('R4/fresh-heap', f.qualname, norm(e.stmt)[:140],
                     '%s writes self-reachable state other than its result heap: %s' % (name, norm(e.stmt)[:100]), f.loc(e.stmt))
     good = len(allocs) == 1 and len(inst) == 1
